@@ -174,10 +174,17 @@ package js_ast
 //   decimal representation, i.e. it is a single digit or does not start with "0" (every literal that
 //   starts with "0" and is longer is a 0b/0o/0x/0B/0O/0X radix literal: BigInt has no legacy octal form).
 // (Numeric separators are removed by the lexer before the AST is built: assumption.)
+// RegExp.prototype.toString is "/" + source + "/" + flags, and the `flags` getter (ECMA-262 22.2.6.4) builds its string in
+// the fixed order d g i m s u v y. The source text of a literal may be used as its string value only if its flags
+// already are in that order (`"a" + /x/ig` is "a/x/gi").
+//@ spec func reFlagRank(c uint8) int = c == 'd' ? 0 : (c == 'g' ? 1 : (c == 'i' ? 2 : (c == 'm' ? 3 : (c == 's' ? 4 : (c == 'u' ? 5 : (c == 'v' ? 6 : (c == 'y' ? 7 : 8)))))))
+//@ spec func reFlagsCanonical(s string) bool = forall i int, j int :: strings.LastIndexByte(s, '/') < i && i < j && j < len(s) ==> reFlagRank(s[i]) < reFlagRank(s[j])
 //@ func ToStringWithoutSideEffects
 //@   arith int
 //@   prop C01 C03
+//@   opt scenario regex_string_fold_flag_order
 //@   modifies nothing
+//@   ensures regexp-flags-in-canonical-order: is(data, *ERegExp) && data.(*ERegExp) != nil && result1 ==> reFlagsCanonical(data.(*ERegExp).Value)
 //@   ensures null: is(data, *ENull) ==> result1 && result0 == "null"
 //@   ensures undefined: is(data, *EUndefined) ==> result1 && result0 == "undefined"
 //@   ensures boolean: is(data, *EBoolean) && data.(*EBoolean) != nil ==> result1 && result0 == (data.(*EBoolean).Value ? "true" : "false")
